@@ -728,6 +728,25 @@ fn cap_cases(r: &mut Rng, out: &mut Vec<String>) {
     }
 }
 
+/// byte strings on both sides of the pre-read limit of `read_bytes` (MAX_PREALLOC_BYTES, read from the tree) and of its
+/// multiples: the decoder handles such a field in several pieces
+fn prealloc_cases(out: &mut Vec<String>, thorough: bool) {
+    let l = crate::c06::max_prealloc() as usize;
+    if l == 0 || l > (4 << 20) { return; }
+    let pat = |n: usize| -> Vec<u8> { (0..n).map(|i| (i % 251) as u8 ^ ((i >> 16) as u8)).collect() };
+    let mut penc = |ty: &str, f: &dyn Fn(&mut Lay)| { let mut lay = Lay::canon(); f(&mut lay); out.push(format!("c05.penc {}{}", ty, toks_line(&lay.toks))); out.push(format!("c05.pdec {} {}", ty, hexd(&lay.bytes))); };
+    let lens: Vec<usize> = if thorough { vec![l - 1, l, l + 1, l + 5, l + l / 2, 2 * l - 1, 2 * l, 2 * l + 1, 3 * l + 7] } else { vec![l - 1, l, l + 1, l + 5, l + l / 2, 2 * l + 1] };
+    for n in lens {
+        let b = pat(n);
+        penc("txout", &|lay| lay_txout(&TxOut { satoshis: 3, lock_script: Script(b.clone()) }, lay));
+    }
+    let b = pat(l + l / 3);
+    let h = Hash256([7u8; 32]);
+    penc("txin", &|lay| lay_txin(&TxIn { prev_output: OutPoint { hash: h, index: 1 }, unlock_script: Script(b.clone()), sequence: 2 }, lay));
+    penc("filteradd", &|lay| lay_filteradd(&FilterAdd { data: b.clone() }, lay));
+    penc("authch", &|lay| lay_authch(&Authch { version: 1, message_length: b.len() as u32, message: b.clone() }, lay));
+}
+
 pub fn gen(tier: &str, rng: &mut Rng, out: &mut Vec<String>) {
     let thorough = tier == "thorough";
     let mags = magics();
@@ -815,4 +834,5 @@ pub fn gen(tier: &str, rng: &mut Rng, out: &mut Vec<String>) {
     big_cases(65535, rng, out, thorough);
     big_cases(65536, rng, out, true);
     cap_cases(rng, out);
+    prealloc_cases(out, thorough);
 }
